@@ -1405,7 +1405,7 @@ class Engine:
             # the sub-graph's block dictionary at the start of the current while iteration
             ns_ = path.env.get('it0')
             if not isinstance(ns_, Namespace) or ns_.env.get('$heap') is None:
-                raise Unsupported('graph_before outside a while loop in heap mode')
+                raise Unsupported('graph_before outside a loop in heap mode')
             return V(('dict', T_NAME, T_BLOCK), Select(ns_.env['$heap'].t, E(0).t))
         if name == 'same_graph':
             # the sub-graph's block dictionary is the one of the entry heap, as an SMT term (what a heap write leaves alone
@@ -2154,6 +2154,18 @@ class Engine:
             p.guards = path.guards
             return sub.ev(ast.parse(c.inline, mode='eval').body, p, True)
         # ---- preconditions
+        hier = None
+        if not spec and not c.heap and path.env.get('$heap') is not None and (qual + '#hier') in REGISTRY:
+            # heap-mode caller of a function that has a hierarchy view: the view's additional preconditions are obligations
+            # of this call, its postconditions are assumed together with the main view's (the heap is havoced)
+            hier = REGISTRY[qual + '#hier']
+            vals['$heap'] = path.env['$heap']
+            vals['$heap0'] = path.env['$heap']
+            for cn, text in hier.requires.items():
+                if c.requires.get(cn) == text:
+                    continue
+                g = self.spec_formula(ast.parse(text, mode='eval').body, vals, path, cm)
+                self.add_obligation(path, 'call-pre', '%s:%s' % (site, cn), g)
         if not spec:
             for cn, text in c.requires.items():
                 g = self.spec_formula(ast.parse(text, mode='eval').body, vals, path, cm)
@@ -2233,6 +2245,13 @@ class Engine:
             finally:
                 self.intensional_eq = False
             self.labels[f_.get_id()] = cn      # callee postconditions can be selected by proof hints
+        if hier is not None:
+            h_post = S.fresh(S.T_HEAP, 'heapc')
+            env['$heap'] = h_post
+            for cn, text in hier.ensures.items():
+                f_ = path.assume(self.spec_formula(ast.parse(text, mode='eval').body, env, path, cm))
+                self.labels[f_.get_id()] = cn
+            path.env['$heap'] = h_post
         # ---- write back modified arguments
         for loc in c.modifies:
             root = loc.split('.')[0]
@@ -2961,9 +2980,23 @@ class Engine:
         p.env[gname] = V(gty, g)
         if seen_ghost:
             p.env[seen_name] = seen_h
+        # `it0.<var>`: the value at the start of the current iteration (usable in cuts inside the body and at its end)
+        it_ns = Namespace(dict(p.env))
+        p.env['it0'] = it_ns
+        body_env = lambda p_: dict(p_.env, entry=entry, old=self.old_ns, it0=it_ns)
         outs = self.run(st.body, p)
+        end_cuts = self.c.cuts.get('end:' + key)
+        if end_cuts:
+            self.bound_cuts.add('end:' + key)
         for p2, o in outs:
             if o in (None, 'continue'):
+                # lemmas at the end of the body (proved, then assumed), before the invariant is re-established
+                for cn, text in (end_cuts or {}).items():
+                    g_ = self.spec_formula(ast.parse(text, mode='eval').body, body_env(p2), p2)
+                    if text.strip().startswith('fact('):
+                        self.labels[p2.assume(g_).get_id()] = cn
+                        continue
+                    self.add_obligation(p2, 'cut', 'end:%s:%s' % (key[:40], cn), g_)
                 env2 = base_env(p2)
                 env2[gname] = V(gty, g + 1 if mode == 'index' else Store(g, q, True))
                 if seen_ghost:
@@ -3091,7 +3124,8 @@ class Engine:
                 self.loop_ordinals[id(n)] = seen.get(k, 0)
                 seen[k] = seen.get(k, 0) + 1
         self.bound_loops = set()
-        self.heap_callees = [q.split(':')[1].split('.')[-1] for q, c_ in REGISTRY.items() if c_.heap and '#' not in q]
+        # callees whose preconditions speak about the heap: heap-mode functions and functions with a hierarchy view
+        self.heap_callees = sorted({q.split(':')[1].split('.')[-1].split('#')[0] + '(' for q, c_ in REGISTRY.items() if c_.heap})
         if c.view_of:
             main = REGISTRY[c.view_of]
             missing = [k_ for k_, t_ in main.requires.items() if c.requires.get(k_) != t_]
